@@ -35,6 +35,7 @@ func sfCmd(a []string) string {
 	}
 	st := transfer.VerifNewSendState(uint32(total), 4)
 	var out []string
+	verifying := false // a verification goroutine is running (between an accepted beginVerify and its verdict)
 	for _, op := range a[1:] {
 		f := strings.Split(op, ":")
 		switch {
@@ -58,9 +59,19 @@ func sfCmd(a []string) string {
 				out = append(out, "-")
 			}
 		case op == "v":
-			st.VerifyBegin()
-			out = append(out, "-")
+			// the sender starts the verification goroutine only when beginVerify accepted
+			if st.VerifyBegin() {
+				verifying = true
+				out = append(out, "-")
+			} else {
+				out = append(out, "x")
+			}
 		case op == "k":
+			if !verifying {
+				out = append(out, "x") // no verification goroutine exists: nobody delivers a verdict
+				break
+			}
+			verifying = false
 			st.Verdict(false, 0)
 			out = append(out, "-")
 		case f[0] == "m" && len(f) == 2:
@@ -68,6 +79,11 @@ func sfCmd(a []string) string {
 			if err != nil {
 				return "bad-op"
 			}
+			if !verifying {
+				out = append(out, "x")
+				break
+			}
+			verifying = false
 			st.Verdict(true, uint32(c))
 			out = append(out, "-")
 		case f[0] == "p" && len(f) == 3:
